@@ -33,3 +33,5 @@ EQUIVALENT = [
 BREAKING.append(('delay from float times, truncated afterwards', 'phylib/stats/ccg.py', "        spike_diff = _diff_shifted(spike_samples, shift)", "        spike_diff = (_diff_shifted(spike_times, shift) * sample_rate).astype(np.int64)", ['C15.U1']))
 EQUIVALENT.append(('samples via floor then cast', 'phylib/stats/ccg.py', "    spike_samples = (spike_times * sample_rate).astype(np.int64)", "    spike_samples = np.floor(spike_times * sample_rate).astype(np.int64)"))
 BREAKING.append(('loop bounded by a maximal shift', 'phylib/stats/ccg.py', "    while mask[:-shift].any():", "    while shift <= (winsize_bins // 2 + 1) * binsize and mask[:-shift].any():", ['C15.K1']))
+BREAKING.append(('half-window from the ceiling of the ratio', C, "    winsize_bins = 2 * int(.5 * window_size / bin_size) + 1", "    winsize_bins = 2 * int(np.ceil(.5 * window_size / bin_size)) + 1", ['C15.U1']))
+EQUIVALENT.append(('half-window as floor(ratio) // 2', C, "    winsize_bins = 2 * int(.5 * window_size / bin_size) + 1", "    winsize_bins = 2 * (int(window_size / bin_size) // 2) + 1"))
